@@ -895,3 +895,106 @@ Example entries_example :
   /\ entries_not_overwritten [(44, 1, 7); (82, 0, 3)] [(44, 1, 7); (82, 0, 4)] = false
   /\ overwritten_sites [(44, 1, 7); (82, 0, 3)] [(44, 1, 7); (82, 0, 4)] = [82].
 Proof. repeat split; vm_compute; reflexivity. Qed.
+
+(* ---- caller-owned configuration (the input objects of a run) ---- *)
+Lemma no_owned_write_cons : forall ws k calls,
+  no_owned_write ws (k :: calls) = true -> owned_writes_active ws (k_phases k) = [] /\ no_owned_write ws calls = true.
+Proof.
+  intros ws k calls H. unfold no_owned_write in *. simpl in H. apply andb_true_iff in H. destruct H as [H1 H2].
+  split; [|exact H2]. destruct (owned_writes_active ws (k_phases k)); [reflexivity|discriminate].
+Qed.
+
+Lemma inactive_writes_keep : forall wv phs ws c, owned_writes_active ws phs = [] -> fold_left (write_site wv phs) ws c = c.
+Proof.
+  intros wv phs ws. induction ws as [|w ws IH]; intros c H; [reflexivity|].
+  unfold owned_writes_active in H. simpl in H. simpl. unfold write_site at 2.
+  destruct (w_runs phs w); [discriminate|]. apply IH. exact H.
+Qed.
+
+Lemma run_leaves_cfg : forall wv ws c k, owned_writes_active ws (k_phases k) = [] -> cfg_after_run wv ws c k = c.
+Proof. intros. unfold cfg_after_run. apply inactive_writes_keep. assumption. Qed.
+
+Lemma owned_unchanged : forall wv ws calls c, no_owned_write ws calls = true -> cfg_after wv ws calls c = c.
+Proof.
+  intros wv ws calls. induction calls as [|k calls IH]; intros c H; [reflexivity|].
+  apply no_owned_write_cons in H. destruct H as [H1 H2]. unfold cfg_after in *. simpl.
+  rewrite (run_leaves_cfg wv ws c k H1). apply IH. exact H2.
+Qed.
+
+Lemma hist_reused_rebuilt : forall wv ws calls c, no_owned_write ws calls = true -> hist_reused wv ws calls c = hist_rebuilt calls c.
+Proof.
+  intros wv ws calls. induction calls as [|k calls IH]; intros c H; [reflexivity|].
+  apply no_owned_write_cons in H. destruct H as [H1 H2]. simpl.
+  rewrite (run_leaves_cfg wv ws c k H1). rewrite (IH c H2). reflexivity.
+Qed.
+
+Lemma reuse_equals_rebuild : forall wv ws calls k c, no_owned_write ws calls = true ->
+  hist_reused wv ws calls c = hist_rebuilt calls c /\ rin_reused wv ws calls k c = rin_rebuilt k c.
+Proof.
+  intros. split; [apply hist_reused_rebuilt; assumption|]. unfold rin_reused, rin_rebuilt. rewrite owned_unchanged; [reflexivity|assumption].
+Qed.
+
+Lemma reused_traffic_is_fresh_traffic : forall wv ws key pure wr genp p cs calls k c a,
+  no_owned_write ws calls = true -> ids_distinct cs = true -> works_carried_safe cs (snd p) = true ->
+  traffic_after key pure wr genp p cs (hist_reused wv ws calls c) (rin_reused wv ws calls k c) a
+  = traffic_after key pure wr genp p cs [] (rin_rebuilt k c) a.
+Proof.
+  intros wv ws key pure wr genp p cs calls k c a Hw Hd Hs.
+  destruct (reuse_equals_rebuild wv ws calls k c Hw) as [_ Hr]. rewrite Hr.
+  apply history_independent; assumption.
+Qed.
+
+Lemma no_write_sites_no_write : forall calls, no_owned_write [] calls = true.
+Proof. induction calls as [|k calls IH]; [reflexivity|]. unfold no_owned_write in *. simpl. exact IH. Qed.
+
+Lemma current_owned_writes : gen_owned_writes = [].
+Proof. reflexivity. Qed.
+
+Lemma current_run_leaves_cfg : forall wv calls c, cfg_after wv gen_owned_writes calls c = c.
+Proof. intros. rewrite current_owned_writes. apply owned_unchanged. apply no_write_sites_no_write. Qed.
+
+Lemma current_reused_traffic : forall wv key pure wr genp ws calls k c a,
+  works_in carried_region_today ws = true ->
+  traffic_after key pure wr genp (gen_sites, ws) gen_carried (hist_reused wv gen_owned_writes calls c) (rin_reused wv gen_owned_writes calls k c) a
+  = traffic_after key pure wr genp (gen_sites, ws) gen_carried [] (rin_rebuilt k c) a.
+Proof.
+  intros. destruct (reuse_equals_rebuild wv gen_owned_writes calls k c) as [_ Hr].
+  { rewrite current_owned_writes. apply no_write_sites_no_write. }
+  rewrite Hr. apply current_history_independent. assumption.
+Qed.
+
+(* SENTINEL (seeded regression C13_e): the stateful executor assigns the state-machine defaults into the ExecutionConfig of the caller
+   (one level below a shallow replace()) *)
+Definition settings_write_site : wsite := mkWSite 90 [Stateful].
+Definition sentinel_owned_writes : list wsite := gen_owned_writes ++ [settings_write_site].
+Definition all_phases_call : call := mkCall 0 0 [Examples; Coverage; Fuzzing; Stateful].
+Definition unit_phases_call : call := mkCall 0 0 [Examples; Coverage; Fuzzing].
+Definition cfg_genp : N -> N -> list (option N) -> N -> N -> N -> N -> N := fun _ cfg _ _ _ _ _ => cfg.
+Definition settings_wv : N -> N -> N := fun _ c => c + 1.
+
+Lemma settings_write_sentinel_refuted :
+  owned_writes_active sentinel_owned_writes (k_phases all_phases_call) = [90]
+  /\ owned_writes_active sentinel_owned_writes (k_phases unit_phases_call) = []
+  /\ exists wv key pure wr genp calls k c a,
+       cfg_after wv sentinel_owned_writes calls c <> c
+       /\ traffic_after key pure wr genp (unit_plan fuzz_pos) [] (hist_reused wv sentinel_owned_writes calls c) (rin_reused wv sentinel_owned_writes calls k c) a
+          <> traffic_after key pure wr genp (unit_plan fuzz_pos) [] [] (rin_rebuilt k c) a.
+Proof.
+  split; [reflexivity|]. split; [reflexivity|].
+  exists settings_wv, leak_key, leak_pure, leak_wr, cfg_genp, [all_phases_call], all_phases_call, 0, wit_a0.
+  split; vm_compute; discriminate.
+Qed.
+
+Lemma settings_write_sentinel_differs :
+  sentinel_owned_writes <> gen_owned_writes
+  /\ no_owned_write sentinel_owned_writes [all_phases_call] = false /\ no_owned_write gen_owned_writes [all_phases_call] = true
+  /\ no_owned_write sentinel_owned_writes [unit_phases_call] = true.
+Proof. split; [discriminate|]. split; [reflexivity|]. split; reflexivity. Qed.
+
+(* non-vacuity: two write sites that do not run in the unit phases; three unit-phase runs on the same objects leave them alone *)
+Example owned_example :
+  cfg_after settings_wv [mkWSite 90 [Stateful]; mkWSite 91 [Stateful]] [unit_phases_call; unit_phases_call; unit_phases_call] 5 = 5
+  /\ cfg_after settings_wv [mkWSite 90 [Stateful]; mkWSite 91 [Stateful]] [unit_phases_call; all_phases_call] 5 = 7
+  /\ changed_fields [(1, 10); (2, 20); (3, 30)] [(1, 10); (2, 21); (4, 40)] = [2; 3; 2; 4]
+  /\ changed_fields [(1, 10); (2, 20)] [(2, 20); (1, 10)] = [].
+Proof. repeat split; reflexivity. Qed.
